@@ -1,7 +1,7 @@
 package flight12
 
 //symgo:pkg github.com/pion/dtls/v3/internal/flight/flight12
-//symgo:param NCURVE quick=3 thorough=3
+//symgo:param NCURVE quick=3 thorough=4
 //symgo:outside curve lists longer than NCURVE entries; a ClientHello without supported_groups (RFC 4492 lets the server pick freely then)
 
 import "github.com/pion/dtls/v3/pkg/crypto/elliptic"
